@@ -311,11 +311,43 @@ pub fn valid_frame(kind: usize, variant: usize, padlen: usize, salt: usize) -> V
 pub const CLASS_NAMES: [&str; 4] = ["valid", "wrong-shape", "malformed", "whitespace-padded"];
 
 /// Generate one non-empty, NUL-free frame of the given class for a receive of `kind`.
+/// The same document with one member *name* written with a JSON escape (`"\u0065rror"`): legal,
+/// and equal to the plain spelling for every conforming decoder.
+fn escape_a_member_name(frame: Vec<u8>, which: usize) -> Vec<u8> {
+    let names: [(&str, &str); 6] = [
+        ("\"error\"", "\"\\u0065rror\""),
+        ("\"parameters\"", "\"p\\u0061rameters\""),
+        ("\"method\"", "\"m\\u0065thod\""),
+        ("\"continues\"", "\"continu\\u0065s\""),
+        ("\"oneway\"", "\"on\\u0065way\""),
+        ("\"more\"", "\"mor\\u0065\""),
+    ];
+    let text = match String::from_utf8(frame) {
+        Ok(t) => t,
+        Err(e) => return e.into_bytes(),
+    };
+    for k in 0..names.len() {
+        let (plain, escaped) = names[(which + k) % names.len()];
+        if text.contains(plain) {
+            return text.replacen(plain, escaped, 1).into_bytes();
+        }
+    }
+    text.into_bytes()
+}
+
 pub fn gen_frame(t: &mut Tape, kind: usize, class: usize, padlen: usize) -> Vec<u8> {
     let variant = t.draw(4);
     let salt = t.draw(50);
     match class {
-        0 => valid_frame(kind, variant, padlen, salt),
+        0 => {
+            let f = valid_frame(kind, variant, padlen, salt);
+            // one valid frame in eight spells a member name with an escape
+            if salt % 8 == 5 {
+                escape_a_member_name(f, variant)
+            } else {
+                f
+            }
+        }
         1 => match t.draw(6) {
             // valid JSON, wrong shape for `kind`
             0 => valid_frame((kind + 1 + t.draw(N_KINDS - 1)) % N_KINDS, variant, padlen, salt),
